@@ -1,21 +1,5 @@
 //! zv — property-based / fuzzing verification engine for wislertt/zerv (see /verif/DESIGN.md)
-#[macro_use]
-#[allow(dead_code)]
-mod runner;
-#[allow(dead_code)]
-mod gens;
-#[allow(dead_code)]
-mod oracle;
-#[allow(dead_code)]
-mod proc;
-#[allow(dead_code)]
-mod cli;
-#[allow(dead_code)]
-mod model;
-#[allow(dead_code)]
-mod gitlab;
-mod props;
-
+use zv::{oracle, props, runner};
 use runner::Tier;
 
 fn usage() -> ! {
